@@ -82,7 +82,12 @@ func (f *Manager) ComputeNext(currTime int64, r Rules) *Manager {
 	minUnitPrice := r.GetMinUnitPrice()
 	lastTimeSeconds := int64(binary.BigEndian.Uint64(f.raw[0:consts.Int64Len]))
 	currTimeSeconds := currTime / consts.MillisecondsPerSecond
-	since := uint64(currTimeSeconds - lastTimeSeconds)
+	// The caller's clock may be behind the timestamp of the fee state (a block may be stamped
+	// slightly in the future): no time has elapsed then, the difference must not wrap around.
+	since := uint64(0)
+	if currTimeSeconds > lastTimeSeconds {
+		since = uint64(currTimeSeconds - lastTimeSeconds)
+	}
 	bytes := make([]byte, consts.Int64Len+dimensionStateLen*fees.FeeDimensions)
 	binary.BigEndian.PutUint64(bytes[0:consts.Int64Len], uint64(currTimeSeconds))
 	for i := fees.Dimension(0); i < fees.FeeDimensions; i++ {
